@@ -353,7 +353,7 @@ func (c *Ctx) traverse(s *Sim, helper *apisub.API, q searchQuery, ids []string) 
 		if all {
 			must++
 			if returned[id] == 0 {
-				s.mon.violate("C14", "search:missing", fmt.Sprintf("query %+v: %s matched throughout the traversal but was never returned (%d pages)", q, id, pages))
+				s.mon.violate("C14,C01", "search:missing", fmt.Sprintf("query %+v: %s matched throughout the traversal but was never returned (%d pages)", q, id, pages))
 			}
 		}
 		if some {
@@ -377,6 +377,41 @@ func (c *Ctx) traverse(s *Sim, helper *apisub.API, q searchQuery, ids []string) 
 	if must > 0 {
 		c.Nontrivial()
 		s.mon.region("search-traversal-with-matches")
+	}
+	// a search for one promise's exact id (no wildcard in it) lists that promise, as stored, and nothing else
+	for k := 0; k < 3 && len(ids) > 0; k++ {
+		id := ids[r.Intn(len(ids))]
+		if strings.Contains(id, "*") {
+			continue
+		}
+		req, err := helper.SearchPromises(id, "", nil, 10, "")
+		if err != nil {
+			continue
+		}
+		row := s.snap.P[id] // as stored before the search is issued
+		o := s.Submit("searcher", &t_api.Request{Kind: t_api.SearchPromises, SearchPromises: req})
+		for i := 0; i < 400 && !o.Done; i++ {
+			s.Tick(s.now)
+		}
+		if !o.Done || o.Err != nil {
+			c.Rep.Inconclusive++
+			break
+		}
+		s.mon.hit("search.exact-id")
+		found := false
+		for _, p := range o.Res.SearchPromises.Promises {
+			if p.Id != id {
+				s.mon.violate("C14,C01", "search:exact-id-lists-another", fmt.Sprintf("a search for the id %q lists %s", id, p))
+				continue
+			}
+			found = true
+			if row != nil && row.State != int(promise.Pending) && (int(p.State) != row.State || string(p.Value.Data) != string(row.ValueData)) {
+				s.mon.violate("C14,C01", "search:exact-id-differs-from-row", fmt.Sprintf("a search for the id %q lists %s, the stored row is %+v", id, p, *row))
+			}
+		}
+		if row != nil && !found {
+			s.mon.violate("C14,C01", "search:exact-id-missing", fmt.Sprintf("the promise %q exists (state %d) but a search for exactly its id lists %d other promise(s) and not it", id, row.State, len(o.Res.SearchPromises.Promises)))
+		}
 	}
 	if pages > 1 {
 		s.mon.region("search-multi-page")
